@@ -5,12 +5,14 @@ The element converters (`Ofx.Types.conv`) satisfy the laws the aggregate round-t
 * `typesDom`   — for the wire pipeline (`esc = _escape_cdata`): **every** non-empty string within its limit (entity
                  spellings and markup included — `unescape (escapeCdata s) = s`), every bool, every enumeration token
                  free of `& < >`, every integer within the declared length, every finite decimal with exponent ≤ 0
-                 (at the quantum and within the context precision when a scale is declared), through any nesting of
-                 `ListElement`.
+                 (at the quantum and within the context precision when a scale is declared), UTC millisecond
+                 date-times and times, through any nesting of `ListElement`.
 * `typesDomId` — for the direct `from_etree ∘ to_etree` (`esc = id`): the same, but strings must be free of the six
                  entity spellings (`entityFree`), since `String.unconvert` does not escape.
 
-Date-time and time values are not yet in the domains (`False`): the date-time layer's statements are being updated.
+Date-time and time values in the domains are the ones the library itself produces on read: UTC (`tz = utc`), millisecond
+resolution, valid fields, years 1000..9999 for date-times (`dtUtcMs`, `tmUtcMs`); the proofs rest on the date-time
+layer's `C09_write`, `C09_write_roundtrip`, `C09_time_write`, `C09_time_write_roundtrip`.
 -/
 import OfxProofs.Lemmas.AggRound
 import OfxProofs.Props.C10
@@ -61,6 +63,9 @@ theorem markupFree_digits (n : Nat) : markupFree (pyStrNat n) = true := by
 theorem markupFree_append (a b : Str) : markupFree (a ++ b) = (markupFree a && markupFree b) := by
   simp [markupFree]
 
+theorem markupFree_cons (x : Char) (t : Str) :
+    markupFree (x :: t) = ((x != '&' && x != '<' && x != '>') && markupFree t) := by simp [markupFree]
+
 theorem markupFree_pyStrInt (i : Int) : markupFree (pyStrInt i) = true := by
   unfold pyStrInt
   split
@@ -99,6 +104,166 @@ theorem markupFree_decFormatF (neg : Bool) (c : Nat) (e : Int) : markupFree (dec
         markupFree_replicate _ _ (by decide), hd]; rfl
     · rw [markupFree_append, markupFree_append, markupFree_signStr, htk, cons, hdr]; rfl
 
+end Ofx.Types
+
+/-! ### date-time and time values: UTC at millisecond resolution -/
+
+namespace Ofx.DateTime
+open Ofx Ofx.Cal Ofx.Spec.Instant Ofx.Types
+
+theorem dch_markupFree (n : Nat) : (dch n != '&' && dch n != '<' && dch n != '>') = true := by
+  have : dch n = digitChar (n % 10) := rfl
+  rw [this]; exact digitChar_markupFree (n % 10) (Nat.mod_lt _ (by decide))
+
+theorem markupFree_d2 (n : Nat) : markupFree (d2 n) = true := by
+  simp [d2, markupFree_cons, dch_markupFree, markupFree]
+theorem markupFree_d3 (n : Nat) : markupFree (d3 n) = true := by
+  simp [d3, markupFree_cons, dch_markupFree, markupFree]
+theorem markupFree_d4 (n : Nat) : markupFree (d4 n) = true := by
+  simp [d4, markupFree_cons, dch_markupFree, markupFree]
+
+theorem canonOff_utc_render : (canonOff 0 (some "UTC".toList)).render = "+0:UTC".toList := by decide +kernel
+
+/-- the text written for a UTC value has no markup and is not empty -/
+theorem markupFree_render_utc (p : Parts) (hdate : True) (htod : p.tod.isSome = true) (hms : p.ms.isSome = true)
+    (hoff : p.off = some (canonOff 0 (some "UTC".toList))) : markupFree p.render = true ∧ p.render ≠ [] := by
+  obtain ⟨date, tod, ms, off⟩ := p
+  simp only at htod hms hoff
+  subst hoff
+  obtain ⟨⟨h, mi, s⟩, rfl⟩ := Option.isSome_iff_exists.mp htod
+  obtain ⟨m, rfl⟩ := Option.isSome_iff_exists.mp hms
+  cases date with
+  | none =>
+    constructor
+    · simp only [Parts.render, canonOff_utc_render]
+      simp [markupFree_append, markupFree_cons, markupFree_d2, markupFree_d3]
+      decide
+    · simp [Parts.render]
+  | some x =>
+    obtain ⟨y, m', d⟩ := x
+    constructor
+    · simp only [Parts.render, canonOff_utc_render]
+      simp [markupFree_append, markupFree_cons, markupFree_d2, markupFree_d3, markupFree_d4]
+      decide
+    · simp [Parts.render]
+
+/-- valid naive fields are determined by their position on the microsecond scale -/
+theorem localUs_inj (a b : DT) (ha : dtValid a = true) (hb : dtValid b = true) (h : localUs a = localUs b) :
+    a.year = b.year ∧ a.month = b.month ∧ a.day = b.day ∧ a.hour = b.hour ∧ a.minute = b.minute
+      ∧ a.second = b.second ∧ a.us = b.us := by
+  simp only [dtValid, validTod, Bool.and_eq_true, decide_eq_true_eq] at ha hb
+  obtain ⟨⟨da, ⟨⟨a1, a2⟩, a3⟩⟩, a4⟩ := ha
+  obtain ⟨⟨db, ⟨⟨b1, b2⟩, b3⟩⟩, b4⟩ := hb
+  unfold localUs toUs at h
+  have hN : ymd2ord a.year a.month a.day = ymd2ord b.year b.month b.day := by omega
+  have hh : a.hour = b.hour := by omega
+  have hmi : a.minute = b.minute := by omega
+  have hs : a.second = b.second := by omega
+  have hu : a.us = b.us := by omega
+  rw [spec_validDate_eq] at da db
+  simp only [Cal.validDate, Bool.and_eq_true, decide_eq_true_eq] at da db
+  obtain ⟨⟨⟨⟨⟨ya, _⟩, ma1⟩, ma2⟩, dda1⟩, dda2⟩ := da
+  obtain ⟨⟨⟨⟨⟨yb, _⟩, mb1⟩, mb2⟩, ddb1⟩, ddb2⟩ := db
+  have ea := ord2ymd_ymd2ord a.year a.month a.day ya ⟨ma1, ma2⟩ ⟨dda1, dda2⟩
+  have eb := ord2ymd_ymd2ord b.year b.month b.day yb ⟨mb1, mb2⟩ ⟨ddb1, ddb2⟩
+  rw [hN, eb] at ea
+  simp only [Prod.mk.injEq] at ea
+  exact ⟨ea.1.symm, ea.2.1.symm, ea.2.2.symm, hh, hmi, hs, hu⟩
+
+/-- UTC datetimes at millisecond resolution in years 1000..9999 -/
+def dtUtcMs (d : DT) : Prop :=
+  dtValid d = true ∧ d.tz = some utc ∧ d.us % 1000 = 0 ∧ us1000 ≤ localUs d ∧ localUs d < usEnd
+
+theorem localUs_ms (d : DT) (h : d.us % 1000 = 0) : localUs d % 1000 = 0 := by
+  unfold localUs toUs; omega
+
+/-- **write, then read, a UTC millisecond datetime: the text has no markup and reads back to the value** -/
+theorem dt_round_utc (r r' : Bool) (d : DT) (hd : dtUtcMs d) :
+    ∃ s, dtUnconvert r (.dt d) = .ok (.str s) ∧ markupFree s = true ∧ s ≠ [] ∧
+      dtConvert r' (.str s) = .ok (.dt d) := by
+  obtain ⟨hv, htz, hms, hlo, hhi⟩ := hd
+  have hmod := localUs_ms d hms
+  have hoffU : utc.offUs = 0 := rfl
+  have hname : ∀ n, utc.name = some n → '\n' ∉ n := by
+    intro n hn; have : n = "UTC".toList := by simpa [utc] using hn.symm
+    subst this; decide
+  have hyear : us1000 ≤ localUs d + 500 ∧ localUs d + 500 < usEnd := by
+    unfold us1000 usEnd at *; omega
+  have hutc : minInstant ≤ roundMs (localUs d - utc.offUs) ∧ roundMs (localUs d - utc.offUs) < endInstant := by
+    rw [hoffU]; unfold minInstant endInstant roundMs; unfold us1000 usEnd at *; omega
+  obtain ⟨p, us, _, hun, _, _, htod, hpms, hpo, _⟩ :=
+    C09_write r d utc hv htz (by decide) (by decide) hname hyear
+  obtain ⟨text, v, hun', hc, hi, _⟩ :=
+    C09_write_roundtrip Ofx.Generated.tzs r r' d utc hv htz (by decide) (by decide) hname hyear hutc
+  have htext : text = p.render := by
+    rw [hun] at hun'; injection hun' with h; injection h with h; exact h.symm
+  subst htext
+  have hpo' : p.off = some (canonOff 0 (some "UTC".toList)) := by rw [hpo]; rfl
+  obtain ⟨hmf, hne⟩ := markupFree_render_utc p trivial htod hpms hpo'
+  refine ⟨p.render, hun, hmf, hne, ?_⟩
+  obtain ⟨x, rfl, hxv, hxtz, hxi⟩ := hi
+  have hxl := dtInstantUs_local x utc hxv hxtz
+  rw [hxl] at hxi
+  injection hxi with hxi
+  have hround : 1000 * roundMs (localUs d - utc.offUs) = localUs d := by
+    rw [hoffU]; unfold roundMs; omega
+  rw [hround, hoffU] at hxi
+  have hinj := localUs_inj x d hxv hv (by omega)
+  have : x = d := by
+    cases x; cases d
+    simp only at hinj hxtz htz
+    obtain ⟨h1, h2, h3, h4, h5, h6, h7⟩ := hinj
+    subst h1 h2 h3 h4 h5 h6 h7
+    rw [hxtz, htz]
+  rw [← this]
+  exact hc
+
+/-- UTC times at millisecond resolution -/
+def tmUtcMs (t : TM) : Prop := tmValid t = true ∧ t.tz = some utc ∧ t.us % 1000 = 0
+
+/-- **write, then read, a UTC millisecond time** -/
+theorem tm_round_utc (r r' : Bool) (t : TM) (hd : tmUtcMs t) :
+    ∃ s, tmUnconvert r (.tm t) = .ok (.str s) ∧ markupFree s = true ∧ s ≠ [] ∧
+      tmConvert r' (.str s) = .ok (.tm t) := by
+  obtain ⟨hv, htz, hms⟩ := hd
+  have hoffU : utc.offUs = 0 := rfl
+  have hname : ∀ n, utc.name = some n → '\n' ∉ n := by
+    intro n hn; have : n = "UTC".toList := by simpa [utc] using hn.symm
+    subst this; decide
+  obtain ⟨p, hun, _, _, htod, hpms, hpo, _⟩ := C09_time_write r t utc hv htz (by decide) (by decide) hname
+  obtain ⟨text, v, hun', hc, hi, _⟩ :=
+    C09_time_write_roundtrip Ofx.Generated.tzs r r' t utc hv htz (by decide) (by decide) hname
+  have htext : text = p.render := by
+    rw [hun] at hun'; injection hun' with h; injection h with h; exact h.symm
+  subst htext
+  have hpo' : p.off = some (canonOff 0 (some "UTC".toList)) := by rw [hpo]; rfl
+  obtain ⟨hmf, hne⟩ := markupFree_render_utc p trivial htod hpms hpo'
+  refine ⟨p.render, hun, hmf, hne, ?_⟩
+  obtain ⟨x, rfl, hxv, hxtz, hxi⟩ := hi
+  rw [tmInstantUs_local x utc hxtz] at hxi
+  injection hxi with hxi
+  rw [hoffU] at hxi
+  have hv' := hv
+  simp only [tmValid, validTod, Bool.and_eq_true, decide_eq_true_eq] at hv' hxv
+  obtain ⟨⟨⟨a1, a2⟩, a3⟩, a4⟩ := hv'
+  obtain ⟨⟨⟨b1, b2⟩, b3⟩, b4⟩ := hxv
+  unfold todUs roundMs at hxi
+  have e : x.hour = t.hour ∧ x.minute = t.minute ∧ x.second = t.second ∧ x.us = t.us := by
+    refine ⟨?_, ?_, ?_, ?_⟩ <;> omega
+  have : x = t := by
+    cases x; cases t
+    simp only at e hxtz htz
+    obtain ⟨h1, h2, h3, h4⟩ := e
+    subst h1 h2 h3 h4
+    rw [hxtz, htz]
+  rw [← this]
+  exact hc
+
+end Ofx.DateTime
+
+namespace Ofx.Types
+open Ofx Ofx.Agg
+
 /-! ### the domains -/
 
 /-- values for which the wire pipeline (write, `_escape_cdata`, read) returns the value -/
@@ -109,6 +274,8 @@ def typesDom (enums : List (List Str)) : Kind → Bool → Val → Prop
   | .integer l, _, v => ∃ i, v = .int i ∧ intFits l i = true
   | .decimal none, _, v => ∃ neg c e, v = .dec (.fin neg c e) ∧ e ≤ 0
   | .decimal (some q), _, v => ∃ neg c, v = .dec (.fin neg c q) ∧ q ≤ 0 ∧ fitsPrec c = true
+  | .datetime, _, v => ∃ d, v = .dt d ∧ Ofx.DateTime.dtUtcMs d
+  | .time, _, v => ∃ t, v = .tm t ∧ Ofx.DateTime.tmUtcMs t
   | .listElem k ir, _, v => typesDom enums k ir v
   | _, _, _ => False
 
@@ -120,6 +287,8 @@ def typesDomId (enums : List (List Str)) : Kind → Bool → Val → Prop
   | .integer l, _, v => ∃ i, v = .int i ∧ intFits l i = true
   | .decimal none, _, v => ∃ neg c e, v = .dec (.fin neg c e) ∧ e ≤ 0
   | .decimal (some q), _, v => ∃ neg c, v = .dec (.fin neg c q) ∧ q ≤ 0 ∧ fitsPrec c = true
+  | .datetime, _, v => ∃ d, v = .dt d ∧ Ofx.DateTime.dtUtcMs d
+  | .time, _, v => ∃ t, v = .tm t ∧ Ofx.DateTime.tmUtcMs t
   | .listElem k ir, _, v => typesDomId enums k ir v
   | _, _, _ => False
 
@@ -137,6 +306,10 @@ example : typesDom [] (.decimal (some (-2))) false (.dec (.fin false 0 (-2))) :=
   ⟨_, _, rfl, by decide, by decide⟩
 example : typesDom [] (.listElem (.string (some 32) true) false) true (.str "a<b".toList) :=
   ⟨_, rfl, by decide, by decide⟩
+example : typesDom [] .datetime false (.dt ⟨2024, 2, 29, 23, 59, 59, 999000, some Ofx.Spec.Instant.utc⟩) :=
+  ⟨_, rfl, by unfold Ofx.DateTime.dtUtcMs; decide +kernel⟩
+example : typesDom [] .time true (.tm ⟨23, 59, 59, 5000, some Ofx.Spec.Instant.utc⟩) :=
+  ⟨_, rfl, by unfold Ofx.DateTime.tmUtcMs; decide +kernel⟩
 example : typesDomId [] (.string none true) false (.str "AT&T; 100% <plain>".toList) :=
   ⟨_, rfl, by decide, by decide, by decide +kernel⟩
 
@@ -218,8 +391,14 @@ theorem typesConv_round_esc (enums : List (List Str)) (k : Kind) (r : Bool) (v :
         rw [h0] at h2
         exact absurd h2 (by rw [show decimalConvert (some qe) r (.str []) = .error .decimal from rfl]; simp)
       exact ⟨_, this.1, escapeCdata_ne_nil _ hne, by rw [escapeCdata_markupFree _ hmf]; exact this.2⟩
-  | datetime => exact absurd hd (by simp [typesDom])
-  | time => exact absurd hd (by simp [typesDom])
+  | datetime =>
+    obtain ⟨d, rfl, hdd⟩ := hd
+    obtain ⟨s, hun, hmf, hne, hc⟩ := Ofx.DateTime.dt_round_utc r r d hdd
+    exact ⟨s, hun, escapeCdata_ne_nil s hne, by rw [escapeCdata_markupFree s hmf]; exact hc⟩
+  | time =>
+    obtain ⟨t, rfl, hdt⟩ := hd
+    obtain ⟨s, hun, hmf, hne, hc⟩ := Ofx.DateTime.tm_round_utc r r t hdt
+    exact ⟨s, hun, escapeCdata_ne_nil s hne, by rw [escapeCdata_markupFree s hmf]; exact hc⟩
   | listElem k ir ih => exact ih ir hd
   | sub c => exact absurd hd (by simp [typesDom])
   | listAgg c => exact absurd hd (by simp [typesDom])
@@ -274,8 +453,14 @@ theorem typesConv_round_id (enums : List (List Str)) (k : Kind) (r : Bool) (v : 
         rw [h0] at h2
         exact absurd h2 (by rw [show decimalConvert (some qe) r (.str []) = .error .decimal from rfl]; simp)
       exact ⟨_, this.1, hne, this.2⟩
-  | datetime => exact absurd hd (by simp [typesDomId])
-  | time => exact absurd hd (by simp [typesDomId])
+  | datetime =>
+    obtain ⟨d, rfl, hdd⟩ := hd
+    obtain ⟨s, hun, _, hne, hc⟩ := Ofx.DateTime.dt_round_utc r r d hdd
+    exact ⟨s, hun, hne, hc⟩
+  | time =>
+    obtain ⟨t, rfl, hdt⟩ := hd
+    obtain ⟨s, hun, _, hne, hc⟩ := Ofx.DateTime.tm_round_utc r r t hdt
+    exact ⟨s, hun, hne, hc⟩
   | listElem k ir ih => exact ih ir hd
   | sub c => exact absurd hd (by simp [typesDomId])
   | listAgg c => exact absurd hd (by simp [typesDomId])
